@@ -434,6 +434,7 @@ def main (args : List String) : IO Unit := do
       | "retromate" => runG seed (retroMateOps (n 0 20) ((rest.drop 1).map fun a => a.replace "_" " "))
       | "rep" => runG seed (repOps (n 0 20) (n 1 30) (n 2 4) ((rest.drop 3).map fun a => a.replace "_" " "))
       | "cap" => runG seed (capOps (n 0 50) (n 1 30) (n 2 6))
+      | "chkmoves" => runG seed (chkMoveOps (n 0 1) ((rest.drop 1).map fun a => a.replace "_" " "))
       | "heavy" => runG seed (heavyOps (n 0 10) ((rest.drop 1).map fun a => a.replace "_" " "))
       | "dense" => runG seed (denseOps (n 0 10) (n 1 6) ((rest.drop 2).map fun a => a.replace "_" " "))
       | "fewmoves" => runG seed (fewMovesOps (n 0 10) (n 1 1) (n 2 60) ((rest.drop 3).map fun a => a.replace "_" " "))
